@@ -1,8 +1,11 @@
 #!/usr/bin/env python3
 """C17 — Big5 <-> UTF-8: proofs in coq/Props/C17.v; exhaustive correspondence and direct predicates on
 types.Big5ToUtf8 / types.Utf8ToBig5 (all 65 536 two-byte Big5 inputs, every row of both tables, all
-one/two-byte and all three-byte lead/continuation patterns of UTF-8, generated malformed strings)."""
+one/two-byte and all three-byte lead/continuation patterns of UTF-8, generated malformed strings), plus the initialisation
+paths: histories of start-up attempts (good, bad path of either table then retry, repeated) each in a fresh driver process and
+followed by a reduced sweep, and ptttype.InitConfig() sequences (BBSNAME_BIG5 must be the conversion of BBSNAME)."""
 import os, resource, sys
+from concurrent.futures import ThreadPoolExecutor
 sys.path.insert(0, os.path.join(os.path.dirname(os.path.abspath(__file__)), "..", "lib"))
 import vf
 
@@ -17,6 +20,8 @@ DEADLINE_MS = 2000
 CONFIRM_MS = 8000
 REPL_BIG5 = [0xFF, 0xFD]           # what Utf8ToBig5 appends for a sequence it has no entry for
 REPL_UTF8 = [0xEF, 0xBF, 0xBD]     # U+FFFD
+FRESH = {"VERIF_C17_FRESH": "1"}   # driver env: leave the tables as a new process has them (ops 10 / 11 initialise them)
+INIT_DEADLINE_MS = 30000
 
 
 def read_table(name):
@@ -415,6 +420,214 @@ def main():
         c.sample({"op": "Utf8ToBig5", "input": " ".join("%02X" % b for b in gu[k]), "result": o8[k]})
         c.sample({"op": "Big5ToUtf8", "input": " ".join("%02X" % b for b in gb[7]), "result": o7[7]})
 
+
+    # ------------------------------------------------------------ initialisation paths (the tables are package state)
+    # Every scenario is ONE case line run in a fresh driver process: a history of start-up attempts through
+    # types.InitConfig() with the table paths taken from the configuration (0 good file, 1 missing file, 2 a directory,
+    # 3 empty path; first number of a pair: BIG5_TO_UTF8, second: UTF8_TO_BIG5), followed by a reduced sweep on the
+    # tables this leaves. Direct predicate: if the last attempt returned nil, both directions are table-exact and the
+    # mutually mapped codes round-trip; in every state every conversion returns.
+    def pick(lst, n_edge, n_rand):
+        mid = lst[n_edge:len(lst) - n_edge]
+        return lst[:n_edge] + rng.sample(mid, min(n_rand, len(mid))) + lst[len(lst) - n_edge:]
+
+    n_r = 1200 if thorough else 120
+    b2u_file_order = [b for b in dict.fromkeys(b for b, _ in b2u_rows) if b >= 0x8000]     # first/last rows of the file first/last
+    u2b_file_order = [u for u in dict.fromkeys(u for _, u in u2b_rows) if u >= 0x80]
+    sweep = []                                                 # (dir, input bytes, expected output or None, predicate name)
+    for b in pick(b2u_file_order, 8, n_r):
+        sweep.append((1, [b >> 8, b & 0xFF], enc(b2u[b]), "b2u-table-exact"))
+    for u in pick(u2b_file_order, 8, n_r):
+        sweep.append((2, enc(u), [u2b[u] >> 8, u2b[u] & 0xFF], "u2b-table-exact"))
+    for b in pick(mutual, 4, n_r // 2):
+        sweep.append((3, [b >> 8, b & 0xFF], [b >> 8, b & 0xFF], "roundtrip-b2u2b"))
+        sweep.append((4, enc(b2u[b]), enc(b2u[b]), "roundtrip-u2b2u"))
+    for _ in range(20):
+        cs = [rng.choice(mutual) if rng.random() < 0.7 else rng.randrange(0x20, 0x7F) for _ in range(rng.randrange(1, 12))]
+        sb = [x for cd in cs for x in ([cd] if cd < 0x80 else [cd >> 8, cd & 0xFF])]
+        su = [x for cd in cs for x in ([cd] if cd < 0x80 else enc(b2u[cd]))]
+        sweep += [(1, sb, su, "b2u-table-exact"), (2, su, sb, "u2b-table-exact"), (3, sb, sb, "roundtrip-b2u2b"), (4, su, su, "roundtrip-u2b2u")]
+    for a in ([], [0x41], list(range(0x20, 0x7F)), [0, 0x7F, 0x0A]):
+        sweep += [(1, a, a, "b2u-ascii"), (2, a, a, "u2b-ascii")]
+    # unmapped and malformed input: must return in every state; what comes out is left to the sweeps above (tables loaded) and to the model
+    sweep += [(1, [0x80, 0x80], None, ""), (1, [0xA4], None, ""), (1, [0xFF, 0xFD], None, ""), (2, enc(unmapped_u[0]), None, ""),
+              (2, [0xF0, 0x9F, 0x98, 0x80], None, ""), (2, [0x80], None, ""), (2, [0xE4, 0xB8], None, ""), (4, [0xC3], None, "")]
+    sweep_txt = "|".join("%d %s" % (d, toks(i)) for d, i, _, _ in sweep)
+
+    histories = [[(0, 0)],                       # the start-up of the other sections, now through types.InitConfig()
+                 [(0, 1), (0, 0)],               # first attempt loads Big5->UTF-8 and fails on UTF-8->Big5; retry with the path fixed
+                 [(1, 0), (0, 0)],               # first attempt fails on the first table; retry
+                 [(0, 0), (0, 0)],               # start-up twice
+                 [(1, 1), (0, 0)], [(0, 2), (0, 0)], [(3, 0), (0, 0)], [(2, 3), (0, 1), (0, 0)],
+                 [(0, 1), (1, 0)],               # the retry finds the first table loaded (its path no longer matters) and loads the second
+                 [(1, 0), (0, 1), (1, 0)],       # same, one attempt later
+                 [(0, 0), (1, 1)],               # a later start-up with both paths broken: guards answer, tables stay
+                 [(0, 1)], [(1, 0)], []]         # no successful start-up: only "returns" and the correspondence
+    for _ in range(12 if thorough else 2):
+        histories.append([(rng.randrange(4), rng.randrange(4)) for _ in range(rng.randrange(1, 4))] + [(0, 0)])
+
+    def hist_txt(h):
+        return " ".join("%d %d" % a for a in h)
+
+    def hist_key(h, sts=None):
+        """class of a history: which table path was bad in the attempts that failed before the last one"""
+        if not h:
+            return "no-start-up"
+        if sts is None or len(sts) != len(h):
+            return ",".join("%d-%d" % a for a in h)
+        bad = set()
+        for (pb, pu), st in zip(h[:-1], sts[:-1]):
+            if st != 0:
+                bad |= ({"BIG5_TO_UTF8"} if pb else set()) | ({"UTF8_TO_BIG5"} if pu else set())
+        if sts[-1] != 0:
+            return "last-start-up-failed"
+        if bad:
+            return "retry-after-bad-" + "+".join(sorted(bad))
+        return "first-start-up" if len(h) == 1 else "repeated-start-up"
+
+    def fresh(line):
+        """one case line in a fresh driver process"""
+        return vf.run_impl(impl, "C17", [line], deadline_ms=INIT_DEADLINE_MS, env=FRESH)[0]
+
+    def par_model(lines):
+        """every op-10/11 line makes the model load the tables from scratch (about a second each): a few model processes side by side"""
+        k = 6
+        chunks = [lines[i::k] for i in range(k) if lines[i::k]]
+        with ThreadPoolExecutor(max_workers=k) as ex:
+            outs = list(ex.map(lambda ch: vf.run_model(model, ch), chunks))
+        res = [None] * len(lines)
+        for i, o in enumerate(outs):
+            res[i::k] = o
+        return res
+
+    def parse_sts(t):
+        """'0 n st1..stn rest' -> (statuses, rest) or None"""
+        if t[:1] != ["0"] or len(t) < 2:
+            return None
+        n = int(t[1])
+        return [int(x) for x in t[2:2 + n]], t[2 + n:]
+
+    init_lines = ["10|%s|%s" % (hist_txt(h), sweep_txt) for h in histories]
+    # vf.run_model remembers a few short lines of each call for the vm_compute cross-check of the extraction inside Coq, up to
+    # a fixed number; an op-10/11 line costs several seconds there (the kernel loads the tables again). So: one short line of
+    # each op first (they are cross-checked), then cheap lines that use up the remaining slots.
+    short = ["10|0 1 0 0|2 228 184 128|3 164 64|1 65 164", "11|0 0|1 %s|0" % toks(list("測試站a".encode("utf-8")))]
+    if model:
+        vf.correspond(c, "start-up history / site name, short lines (ops 10, 11)", short, [fresh(l) for l in short], vf.run_model(model, short))
+        for _ in range(3):
+            vf.run_model(model, ["1|65 164 64", "2|228 184 128 65", "1|164"])
+    with ThreadPoolExecutor(max_workers=6) as ex:
+        init_io = list(ex.map(fresh, init_lines))
+    if model:
+        vf.correspond(c, "start-up histories in fresh processes + reduced sweep (op 10)", init_lines, init_io, par_model(init_lines),
+                      describe=lambda cs: "history " + cs.split("|")[1])
+    c.count(len(init_lines) * (1 + len(sweep)), "start-up histories x reduced sweep (fresh process each)")
+    reported = set()
+    n_exact_states = 0
+    for h, line, r in zip(histories, init_lines, init_io):
+        c.nontrivial(("init", tuple(h)))
+        ps = parse_sts(r.split())
+        if ps is None:
+            c.violation("init-status:" + hist_key(h), "start-up history [%s] in a fresh process: the driver ends with status %s" % (hist_txt(h), r.split()[:1]),
+                        {"cases": ["10|%s|%s" % (hist_txt(h), "1 164 64")], "env": FRESH, "got": r[:200], "expected_status": "0"})
+            continue
+        sts, rest = ps
+        must_be_exact = bool(sts) and sts[-1] == 0          # the last start-up returned nil: this is a server that runs
+        n_exact_states += must_be_exact
+        pos = 0
+        for (d, inp, want, pred) in sweep:
+            if pos >= len(rest):
+                break
+            st = rest[pos]
+            if st == "0":
+                ln = int(rest[pos + 1])
+                got = [int(x) for x in rest[pos + 2:pos + 2 + ln]]
+                pos += 2 + ln
+            else:
+                got = None
+                pos += 1
+            key = None
+            if got is None:
+                key, what = "init-conv-status%s:%s" % (st, hist_key(h, sts)), "does not return normally (status %s)" % st
+            elif must_be_exact and want is not None and got != want:
+                key, what = "init-%s:%s" % (pred, hist_key(h, sts)), "gives [%s], expected [%s]" % (" ".join("%02X" % x for x in got), " ".join("%02X" % x for x in want))
+            if key and key not in reported:
+                reported.add(key)
+                one = "10|%s|%d %s" % (hist_txt(h), d, toks(inp))
+                again = fresh(one)                            # the minimal scenario by itself, in its own fresh process
+                exp = "0 %d %s 0 %d %s" % (len(sts), " ".join(map(str, sts)), len(want), toks(want)) if want is not None else None
+                fn = {1: "Big5ToUtf8", 2: "Utf8ToBig5", 3: "Utf8ToBig5(Big5ToUtf8(.))", 4: "Big5ToUtf8(Utf8ToBig5(.))"}[d]
+                c.violation(key, "after the start-up history [%s] (pairs: BIG5_TO_UTF8 path, UTF8_TO_BIG5 path; 0 good, 1 missing, 2 directory, 3 empty) whose attempts returned %s "
+                                 "(0 = nil), %s on [%s] %s" % (hist_txt(h), sts, fn, " ".join("%02X" % x for x in inp), what),
+                            dict({"cases": [one], "env": FRESH, "got": again}, **({"expected": exp.strip()} if exp else {"expected_status": "0"})))
+    c.cov["init_histories"] = {"run": len(histories), "ending_in_nil_start_up": n_exact_states, "conversions_per_history": len(sweep)}
+    k = histories.index([(0, 1), (0, 0)])
+    c.sample({"op": "start-up history, then Utf8ToBig5", "history": "UTF8_TO_BIG5 missing, then fixed", "statuses+first conversion": " ".join(init_io[k].split()[:9])})
+
+    # ------------------------------------------------------------ the glue: ptttype.InitConfig() derives BBSNAME_BIG5 from BBSNAME
+    # op 11: start-up history as above, then a sequence of ptttype.InitConfig() calls, each with a configured site name
+    # ([1, bytes]) or none ([0]); after each the driver reports BBSNAME, BBSNAME_BIG5 and types.Utf8ToBig5(BBSNAME).
+    def u8(txt):
+        return list(txt.encode("utf-8"))
+
+    name_a, name_b = u8("測試站a"), u8("一BBS五")
+    default_name = u8("新批踢踢")
+    rnd_name = [x for u in rng.sample(u2b_keys, 6) for x in enc(u)]
+    mut_name = [x for b in rng.sample(mutual, 5) for x in enc(b2u[b])]
+    C, N = (lambda n: [1] + n), [0]
+    bbs_scen = [([(0, 0)], [C(name_a)]),                                   # first start-up with a configured name
+                ([(0, 0)], [N]),                                           # nothing configured: compiled-in name
+                ([(0, 0)], [C([])]),                                       # configured empty name
+                ([(0, 0)], [C(default_name)]),                             # the default, but configured
+                ([(0, 0)], [C(name_a), C(name_a), C(name_b), N, C([]), C(name_a), C(default_name), N]),
+                ([(0, 0)], [N, C(mut_name), N, C(rnd_name)]),
+                ([(0, 0)], [C(u8("PTT-bbs 2")), C(u8("\U0001F600x")), C(enc(unmapped_u[0]) + u8("z")), C([0x41, 0xE4, 0xB8]), C([0x80, 0xC3])]),
+                ([(0, 1), (0, 0)], [C(name_a), N]),                        # name set after a retried start-up
+                ([(1, 0), (0, 0), (0, 0)], [C(mut_name)])]
+    bbs_lines = ["11|%s|%s" % (hist_txt(h), "|".join(toks(g) for g in steps)) for h, steps in bbs_scen]
+    with ThreadPoolExecutor(max_workers=6) as ex:
+        bbs_io = list(ex.map(fresh, bbs_lines))
+    if model:
+        vf.correspond(c, "ptttype.InitConfig() sequences in fresh processes: BBSNAME / BBSNAME_BIG5 (op 11)", bbs_lines, bbs_io, par_model(bbs_lines))
+    c.count(sum(len(st) for _, st in bbs_scen), "ptttype.InitConfig() steps (BBSNAME_BIG5)")
+
+    def lp(t, pos):
+        n = int(t[pos])
+        return [int(x) for x in t[pos + 1:pos + 1 + n]], pos + 1 + n
+
+    for (h, steps), line, r in zip(bbs_scen, bbs_lines, bbs_io):
+        ps = parse_sts(r.split())
+        if ps is None:
+            c.violation("bbsname-status", "start-up history [%s] + ptttype.InitConfig() steps in a fresh process: the driver ends with status %s" % (hist_txt(h), r.split()[:2]),
+                        {"cases": [line], "env": FRESH, "got": r[:200], "expected_status": "0"})
+            continue
+        sts, rest = ps
+        pos, exp_parts = 0, []
+        for k, g in enumerate(steps):
+            name, pos = lp(rest, pos)
+            big5, pos = lp(rest, pos)
+            conv, pos = lp(rest, pos)
+            c.nontrivial(("bbs", tuple(h), k, tuple(name)))
+            want, _ = ref_u2b(name)                           # the check's own conversion when the name is ASCII + table code points
+            key = None
+            if big5 != conv:
+                key = "bbsname-big5-not-converted:" + ("first-start-up" if k == 0 else "later-init") + (":configured" if g[0] == 1 else ":default")
+                what = "BBSNAME_BIG5 = [%s] but types.Utf8ToBig5(BBSNAME) = [%s]" % (" ".join("%02X" % x for x in big5), " ".join("%02X" % x for x in conv))
+            elif sts and sts[-1] == 0 and want is not None and big5 != want:
+                key = "bbsname-big5-table-exact"
+                what = "BBSNAME_BIG5 = [%s], the table rows say [%s]" % (" ".join("%02X" % x for x in big5), " ".join("%02X" % x for x in want))
+            good = want if (sts and sts[-1] == 0 and want is not None) else conv       # what BBSNAME_BIG5 (and Utf8ToBig5(BBSNAME)) should be
+            exp_parts.append("%d %s %d %s %d %s" % (len(name), toks(name), len(good), toks(good), len(good), toks(good)))
+            if key and key not in reported:
+                reported.add(key)
+                one = "11|%s|%s" % (hist_txt(h), "|".join(toks(x) for x in steps[:k + 1]))
+                exp = " ".join(("0 %d %s %s" % (len(sts), " ".join(map(str, sts)), " ".join(exp_parts))).split())
+                c.violation(key, "after %s ptttype.InitConfig() no. %d of a fresh process (site name %s; BBSNAME = %r): %s" % (
+                                "the start-up history [%s]," % hist_txt(h), k + 1, "configured" if g[0] == 1 else "not configured",
+                                bytes(name).decode("utf-8", "replace"), what),
+                            {"cases": [one], "env": FRESH, "got": fresh(one), "expected": exp})
+    c.sample({"op": "ptttype.InitConfig() with go-pttbbs:ptttype.bbsname configured", "result (BBSNAME, BBSNAME_BIG5, Utf8ToBig5(BBSNAME))": bbs_io[0]})
+
     c.cov["clean_strings_checked_against_reference"] = n_clean
     c.cov["string_round_trips"] = len(l9) + len(l10)
     c.cov["skipped_because_probe_stalls"] = skipped[0]
@@ -425,11 +638,20 @@ def main():
             len(ins), n_enum, "" if not stalls else "; inputs no arm of the scanner covers left out after the probe stalled"),
         "both round trips on each of the %d codes the two tables map to each other" % len(mutual),
     ]
+    c.cov["init_paths"] = ("%d start-up histories (good; bad UTF8_TO_BIG5 path then retry; bad BIG5_TO_UTF8 path then retry; twice; missing file / directory / empty path; "
+                           "no successful start-up; PRNG histories), each in a fresh driver process through types.InitConfig(), each followed by %d conversions "
+                           "(first/last/random rows of both tables, mutual round trips, strings); %d ptttype.InitConfig() sequences (configured / default / empty / "
+                           "repeated / unmapped / malformed site names) with BBSNAME_BIG5 compared to types.Utf8ToBig5(BBSNAME)" % (len(histories), len(sweep), len(bbs_scen)))
     c.finish(rule="enumerations as listed in exhaustive_parts + PRNG(seed) strings: Big5 side ASCII runs / mapped / unmapped pairs / odd and dangling lead bytes / random bytes; UTF-8 side ASCII runs / table code points / "
-                  "unmapped code points / lone continuation bytes / 4-byte sequences / truncated sequences / invalid leads / random bytes. Every case goes through implementation and extracted model (diffed). "
+                  "unmapped code points / lone continuation bytes / 4-byte sequences / truncated sequences / invalid leads / random bytes. "
+                  "Initialisation paths: fixed + PRNG histories of start-up attempts, one fresh driver process each, reduced sweep after each; ptttype.InitConfig() sequences for the site name. "
+                  "Every case goes through implementation and extracted model (diffed). "
                   "Non-trivial = distinct mapped Big5 code, distinct u2b row, or distinct generated/probe string",
              assumptions=["the Go map type, append and string<->[]byte conversion are modelled (PositiveMap keyed by the byte string, list append), not verified",
-                          "tables are loaded as types.SetIsTest(\"main\") does in a process whose working directory is the repository root"])
+                          "tables are loaded as types.SetIsTest(\"main\") does in a process whose working directory is the repository root (sweeps), "
+                          "or through types.InitConfig() with the paths in the viper configuration (initialisation paths)",
+                          "an unreadable table file is modelled as 'os.Open or io.ReadAll fails before any row is stored' (missing file, directory, empty path); "
+                          "a readable file is the table gosync re-read; a read error in the middle of a file is not modelled"])
 
 
 def is_mutual_big5(s, mutual):
